@@ -288,6 +288,74 @@ def psd_exact_or_float(ctx, M, shift, limit):
     return bool(np.linalg.eigvalsh(qcheck.herm_part(M)).min() >= -shift), "float"
 
 
+# ------------------------------------------------------------------ every record: the two projections are projections
+def blocks_batch(kind, B, m, V):
+    """blocks() for a stack of K vectors: array (K, nblocks, D, D)"""
+    dd = B.shape[0]; d = B.shape[1]; K = V.shape[0]
+    if kind == "state":
+        return np.tensordot(V, B, axes=(1, 0))[:, None, :, :]
+    if kind == "povm":
+        return np.tensordot(V.reshape(K, m, dd), B, axes=(2, 0))
+    mm = 1 if kind == "gate" else m
+    H = V.reshape(K, mm, dd, dd)
+    return np.einsum("zmab,aij,bkl->zmikjl", H, B, B.conj()).reshape(K, mm, dd, dd)
+
+
+def eq_residual_batch(kind, d, m, V):
+    dd = d * d; K = V.shape[0]
+    if kind == "state":
+        return np.abs(V[:, 0] - 1 / math.sqrt(d))
+    if kind == "povm":
+        r = V.reshape(K, m, dd).sum(1); r[:, 0] -= math.sqrt(d); return np.linalg.norm(r, axis=1)
+    if kind == "gate":
+        r = V.reshape(K, dd, dd)[:, 0, :].copy(); r[:, 0] -= 1; return np.linalg.norm(r, axis=1)
+    r = V.reshape(K, m, dd, dd)[:, :, 0, :].sum(1); r[:, 0] -= 1; return np.linalg.norm(r, axis=1)
+
+
+def eq_normal_defect_batch(kind, d, m, V):
+    dd = d * d; K = V.shape[0]; V = V.copy()
+    if kind == "state":
+        V[:, 0] = 0; return np.linalg.norm(V, axis=1)
+    if kind == "povm":
+        W = V.reshape(K, m, dd); return np.linalg.norm((W - W.mean(1, keepdims=True)).reshape(K, -1), axis=1)
+    if kind == "gate":
+        H = V.reshape(K, dd, dd); H[:, 0, :] = 0; return np.linalg.norm(H.reshape(K, -1), axis=1)
+    H = V.reshape(K, m, dd, dd); H[:, :, 0, :] -= H[:, :, 0, :].mean(1, keepdims=True); return np.linalg.norm(H.reshape(K, -1), axis=1)
+
+
+def all_records_normal_cone(ctx, sub, case, c, B, R, scale, site):
+    """For EVERY sweep k >= 1 (vectorised, LAPACK): the recorded output of the equality projection lies in the equality set and
+    its correction term is a combination of the constraint normals; the recorded output of the inequality projection is PSD,
+    MINUS its correction term is PSD and the two are complementary.  For closed convex sets these conditions characterise
+    the nearest-point projection, so together with the sweep equations (checked at every sweep) they say
+    y_k = P_first(x_{k-1} + p_{k-1}) and x_k = P_second(y_k + q_{k-1}) for every k, not only for the re-invoked sweeps."""
+    kind, m = case["kind"], case["m"]; d = c.dim; K = R.K
+    if K < 1:
+        return True
+    X = np.array(R.X[1:]); Y = np.array(R.Y[1:]); P = np.array(R.P[1:]); Q = np.array(R.Q[1:]); n = X.shape[1]
+    eq_first = R.order == "eq_ineq"
+    EV, EC = (Y, P) if eq_first else (X, Q)
+    IV, IC = (X, Q) if eq_first else (Y, P)
+    r_eq = eq_residual_batch(kind, d, m, EV); n_eq = eq_normal_defect_batch(kind, d, m, EC)
+    eps_psd = 10 * TOL_PSD * (1 + scale)
+    lam_out = np.linalg.eigvalsh(blocks_batch(kind, B, m, IV)).min(axis=(1, 2))
+    lam_cor = np.linalg.eigvalsh(-blocks_batch(kind, B, m, IC)).min(axis=(1, 2))
+    compl = np.abs(np.einsum("ki,ki->k", IC, IV))
+    delta = 10 * TOL_PSD * (1 + scale) ** 2 * math.sqrt(n)
+    bad = [("eq-membership", r_eq > TOL_STEP * 100 * (1 + scale), r_eq), ("eq-normal", n_eq > TOL_PROJ * (1 + scale), n_eq),
+           ("psd-membership", lam_out < -eps_psd, lam_out), ("psd-normal", lam_cor < -eps_psd, lam_cor), ("complementarity", compl > delta, compl)]
+    ok = True
+    for name, mask, val in bad:
+        idx = np.where(mask)[0]
+        if len(idx):
+            k = int(idx[0]) + 1
+            ctx.violation(sub, site, "sweep-normal-cone-" + name,
+                          "record %d of %d (order %s): %s violated (value %.3e; %d records affected): the recorded projection output is not the projection of its argument"
+                          % (k, K, R.order, name, float(val[k - 1]), len(idx)), dict(case, sweep=k))
+            ok = False
+    return ok
+
+
 # ------------------------------------------------------------------ the main per-run check
 def final_record(ctx, sub, case, c, B, R, x0, scale, site):
     """evaluates the hypotheses of C05_certificate_record on the final history record; returns (gap, slack, ok)"""
@@ -416,6 +484,9 @@ def chk_run(ctx, case):
         if abs(R.errs[k] - br[k]) > 1e-9 * br[k] + 1e-28 * (1 + scale) ** 2:
             ctx.violation(sub, site, "error-value", "sweep %d: recorded error_value %.6e, sum of squared increments %.6e" % (k, R.errs[k], br[k]), dict(case, sweep=k))
             break
+
+    # ---- every record: both recorded projection outputs satisfy the normal-cone characterisation of a projection
+    all_records_normal_cone(ctx, sub, case, c, B, R, scale, site)
 
     # ---- stopping logic on the implementation's own numbers (predicates of C05_run_history)
     early = [k for k in range(1, K - 1) if R.errs[k] < eps]
@@ -598,7 +669,7 @@ def sub_run(ctx):
         for level in ("obj", "var"):
             for order in ("eq_ineq", "ineq_eq"):
                 cases.append(gen_case(ctx, systems, level=level, order=order, kind=kind, heavy_ok=not ctx.quick))
-    for _ in range(ctx.n(70, 600)):
+    for _ in range(ctx.n(70, 600) if not getattr(ctx, "widen", False) else 400):
         cases.append(gen_case(ctx, systems, heavy_ok=not ctx.quick))
     # fuel edge cases: 0 (error branch), 1 (no test at all), 2, 3 and a fuel that is hit exactly
     for mi in (0, 1, 2, 3, 5):
@@ -846,7 +917,83 @@ SUBS = [("criterion", sub_criterion), ("config", sub_config), ("physical", sub_p
 FNS = {"criterion": chk_criterion, "config": chk_config, "physical": chk_physical, "run": chk_run, "agree": chk_agree}
 
 
+# ------------------------------------------------------------------ translator tie (regenerate + re-prove), run in the background
+EQUIV_FILES = ["C05_EquivBase", "C05_EquivVar", "C05_EquivObj", "C05_EquivThm"]      # Var / Obj are compiled in parallel
+
+
+def regen_dykstra(scratch, repo):
+    """gen/c05_py2coq.py regenerates Gallina definitions of the two Dykstra routines and the four stopping-criterion
+    helpers from the CURRENT quara/objects/qoperation.py; coq/gen/C05_Equiv*.v (copied next to them, compiled here)
+    prove them equal to Model/C05_Dykstra.v on all inputs and transport the certificate theorems.
+    Touches no ctx state (it runs in a thread next to the sub-checks).  returns dict(ok, theorem, error, thms, axioms)"""
+    import os, re, shutil, subprocess, sys, threading
+    import runner
+    V = runner.V
+    os.makedirs(scratch, exist_ok=True)
+    thms = {}
+    for f in EQUIV_FILES:
+        src = open(os.path.join(V, "coq", "gen", f + ".v")).read()
+        src_nc = re.sub(r"\(\*.*?\*\)", " ", src, flags=re.S)
+        thms[f] = re.findall(r"^\s*Theorem\s+([\w']+)", src_nc, flags=re.M)
+    all_thms = [t for f in EQUIV_FILES for t in thms[f]]
+    out = {"ok": False, "theorem": all_thms[0], "error": "", "thms": all_thms, "axioms": {}}
+    gen_v = os.path.join(scratch, "Gen_c05_dykstra.v")
+    r = subprocess.run([sys.executable, os.path.join(V, "gen", "c05_py2coq.py"), repo, gen_v], capture_output=True, text=True, timeout=120)
+    if r.returncode != 0:
+        out["error"] = "translator rejected the source (outside its subset): " + (r.stdout + r.stderr)[-600:]
+        return out
+    q = ["-Q", os.path.join(V, "coq", "theories"), "QV", "-Q", scratch, "QVGen"]
+    r = subprocess.run(["timeout", "300", "coqc"] + q + [gen_v], capture_output=True, text=True)
+    if r.returncode != 0:
+        out["error"] = "regenerated definitions do not compile: " + (r.stdout + r.stderr)[-600:]
+        return out
+    res = {}
+
+    def compile_one(f):
+        dst = os.path.join(scratch, f + ".v")
+        shutil.copy(os.path.join(V, "coq", "gen", f + ".v"), dst)
+        rr = subprocess.run(["timeout", "600", "coqc"] + q + [dst], capture_output=True, text=True)
+        res[f] = (rr.returncode, rr.stdout + rr.stderr)
+
+    compile_one("C05_EquivBase")
+    if res["C05_EquivBase"][0] == 0:
+        ths = [threading.Thread(target=compile_one, args=(f,)) for f in ("C05_EquivVar", "C05_EquivObj")]
+        for t in ths:
+            t.start()
+        for t in ths:
+            t.join()
+        if res["C05_EquivVar"][0] == 0 and res["C05_EquivObj"][0] == 0:
+            compile_one("C05_EquivThm")
+    for f in EQUIV_FILES:
+        if f not in res:
+            continue
+        rc, o = res[f]
+        if rc != 0:
+            src = open(os.path.join(V, "coq", "gen", f + ".v")).read()
+            m_ = re.search(r"line (\d+), characters", o)
+            thm = None
+            if m_:
+                upto = "\n".join(src.splitlines()[:int(m_.group(1))])
+                names = re.findall(r"^\s*(?:Theorem|Lemma)\s+([\w']+)", upto, flags=re.M)
+                thm = names[-1] if names else None
+            out["theorem"] = thm or thms[f][0]
+            out["error"] = "%s.v: %s" % (f, o[-700:])
+            return out
+        blocks = runner.parse_assumptions(o)
+        bad = [a for closed, axs in blocks for a in axs if a not in runner.ALLOWED_AXIOMS and a.split(".")[-1] not in runner.ALLOWED_AXIOMS]
+        if len(blocks) != len(thms[f]) or bad:
+            out["theorem"] = thms[f][0]
+            out["error"] = "assumption gate on %s.v: %d blocks / %d theorems, disallowed %s" % (f, len(blocks), len(thms[f]), bad)
+            return out
+        for t, (closed, axs) in zip(thms[f], blocks):
+            out["axioms"][t] = "closed" if closed else sorted(set(axs))
+    out["ok"] = True
+    return out
+
+
 def run(ctx):
+    import os, threading
+    import runner
     ctx.rule = ("seeded inputs of all four types (State, Povm m=2..4, Gate, MProcess m=2..4) on 1 qubit and 1 qutrit (thorough: also 2 qubits): "
                 "physical points + Gaussian noise 1e-3..1e-1 ('near') and random points of norm up to 1/10/100 ('far'), thresholds 1e-14..1e-6, both orders, "
                 "both routines, both parametrisation flags, fuel edge cases 0/1/2/3/5; complex Hermitian operators throughout. "
@@ -854,11 +1001,41 @@ def run(ctx):
                 "distinct = distinct (type, system, m, flags, order, threshold, fuel, routine, input)")
     ctx.assumptions = [
         "C05: convergence/termination within max_iteration is not proved; out-of-fuel runs are a labelled outcome checked against the error value actually reached",
-        "C05: the two projections are oracles (C04); their outputs are checked per run: re-invocation on the model's arguments, and normal-cone membership of the FINAL record (equality side: float residual <= 1e-9 scale; PSD side: exact Coq psd_dec with shift 1e-11 scale for blocks up to 9x9 quick / 16x16 thorough, LAPACK above, labelled)",
+        "C05: the two projections are oracles (C04); their outputs are checked per run: re-invocation on the model's arguments, and normal-cone membership of EVERY record (equality side: float residual <= 1e-9 scale; PSD side of the final record: exact Coq psd_dec with shift 1e-11 scale for blocks up to 9x9 quick / 16x16 thorough, LAPACK above and for the intermediate records, labelled)",
         "C05: coefficient vector <-> operator is an isometry for the orthonormal Hermitian basis read from quara (Gram matrix checked numerically each run)",
-        "C05: gap bound constant C_GAP=25 calibrated on the unchanged tree with >=100x margin (empirical link between threshold and gap); infeasibility tolerance (2 sqrt(m d)+2) sqrt(eps) follows from the proved |x-y|^2 <= error_value",
+        "C05: gap bound constant C_GAP=25 calibrated on the unchanged tree with >=100x margin (empirical link between threshold and gap); infeasibility tolerance (2 sqrt(m d)+2) sqrt(eps) follows from the proved |x-y|^2 <= error_value (Props: C05_eq_residual_le / C05_psd_shift)",
+        "C05: translator tie (gen/c05_py2coq.py + coq/gen/C05_Equiv*.v): the loop skeleton and the stopping-criterion arithmetic are regenerated from the source and proved equal to the model on every run; logging statements are dropped by the translator; objects are represented by their stacked vectors; the projections / conversions / copy are oracles with exact argument shapes",
     ]
-    flow.standard_run(ctx, SUBS)
+    # the translator tie runs next to the theorems and the sub-checks (own scratch, no shared state)
+    box = {}
+    th = threading.Thread(target=lambda: box.update(r=regen_dykstra(os.path.join(ctx.scratch, "gen"), os.environ.get("VERIF_REPO", "/repo"))))
+    th.start()
+    ok, info = runner.check_props(ctx)
+    for name, fn in SUBS:
+        if ctx.only is None or name in ctx.only:
+            fn(ctx)
+    th.join()
+    rg = box.get("r") or {"ok": False, "theorem": None, "error": "regeneration thread died", "thms": [], "axioms": {}}
+    ctx.theorems = list(ctx.theorems) + [t for t in rg["thms"] if t not in ctx.theorems]
+    ctx.obligations += len(rg["thms"])
+    ctx.axioms.update(rg["axioms"])
+    if rg["ok"]:
+        ctx.discharged += len(rg["thms"])
+    else:
+        ok, info = False, {"theorem": rg["theorem"], "error": rg["error"]}
+        ctx.note("regenerated-code obligations (coq/gen/C05_Equiv*.v) not discharged: %s" % str(rg["error"])[:400])
+        if not ctx.violations and (ctx.only is None or "run" in ctx.only):
+            # the source no longer matches the model: widen the search for a concrete failing input before giving up
+            ctx.widen = True
+            sub_run(ctx)
+    if not ok:
+        ctx.discharged = min(ctx.discharged, ctx.obligations - 1)
+    if not ok and not ctx.violations:
+        ctx.violation("theorems", "Props/%s.v + coq/gen/C05_Equiv*.v" % ctx.prop_id, "theorem-broken:%s" % info.get("theorem"),
+                      "theorem %s no longer checks: %s" % (info.get("theorem"), str(info.get("error", ""))[-400:]),
+                      {"theorem": info.get("theorem"), "error": info.get("error")}, no_input=True)
+    elif not ok:
+        ctx.note("theorem obligations not discharged: %s" % info)
 
 
 def replay(ctx, doc):
